@@ -352,14 +352,11 @@ class CentrallyBin(Factory, Container):
 
     @inheritdoc(Container)
     def __iadd__(self, other):
-        if self.centers != other.centers:
-            raise ContainerException(
-                f"cannot add CentrallyBin because centers are different:\n    {self.centers}\nvs\n    {other.centers}"
-            )
-        self.entries += other.entries
-        for (c1, v1), (_, v2) in zip(self.bins, other.bins):
-            v1 += v2  # noqa: PLW2901
-        self.nanflow += other.nanflow
+        # merge with + first: it raises, leaving both operands untouched, if anything is incompatible
+        both = self + other
+        self.entries = both.entries
+        self.bins = both.bins
+        self.nanflow = both.nanflow
         return self
 
     @inheritdoc(Container)
